@@ -111,7 +111,8 @@ func (k Keeper) ChangeToChallengingFromChallengePeriod(ctx sdk.Context, threshol
 			}
 			thresholdDec := math.LegacyMustNewDecFromStr(threshold) // TODO: remove with Dec
 			invalidityThreshold := thresholdDec.MulInt64(int64(len(data.ShardDoubleHashes)))
-			if math.LegacyNewDec(int64(len(invalidIndices))).GTE(invalidityThreshold) {
+			// a challenge needs at least one challenger (a zero threshold must not open one by itself)
+			if len(invalidIndices) > 0 && math.LegacyNewDec(int64(len(invalidIndices))).GTE(invalidityThreshold) {
 				data.Status = types.Status_STATUS_CHALLENGING
 				data.Timestamp = ctx.BlockTime()
 				err = k.SetPublishedData(ctx, data)
